@@ -293,6 +293,7 @@ func (w *World) prefillItem() *Item {
 		panic("prefill item collides")
 	}
 	w.orc.itemsByKey[it.Key] = it
+	w.prefillItems = append(w.prefillItems, it)
 	return it
 }
 
